@@ -168,12 +168,22 @@ pub struct World {
     pub index: HashMap<(u32, String), RVal>,
     /// invocation log: (parent id, field name, response key)
     pub log: Mutex<Vec<(u32, String, String)>>,
+    /// (C22, optional) when `Some(names)`, every resolver invocation also records the selection-field
+    /// view and the look-ahead view (probed with `names`) of its field into `views`
+    pub view_names: Option<Vec<String>>,
+    pub views: Mutex<Vec<Sexp>>,
+    /// (C22) argument values received by the resolver that is about to call `get`
+    pub recv: Mutex<Vec<(String, GV)>>,
+    /// (C04/C05, optional) when present, every resolver is traced (start/end with the response
+    /// path of its parent position) and waits behind a gate that is Pending `k` times
+    pub sched: Option<Sched>,
+    pub trace: Mutex<Vec<TraceEv>>,
 }
 
 impl World {
     pub fn new(entries: Vec<((u32, String), RVal)>) -> World {
         let index = entries.iter().cloned().collect();
-        World { entries, index, log: Mutex::new(vec![]) }
+        World { entries, index, log: Mutex::new(vec![]), ..Default::default() }
     }
     pub fn to_sexp(&self) -> Sexp {
         node(
@@ -190,15 +200,94 @@ impl World {
         }
         Some(World::new(es))
     }
-    fn get(&self, ctx: &Context<'_>, id: u32, f: &str) -> RVal {
+    pub fn get(&self, ctx: &Context<'_>, id: u32, f: &str) -> RVal {
         let key = ctx.field().alias().unwrap_or(ctx.field().name()).to_string();
+        if let Some(names) = &self.view_names {
+            let recv = std::mem::take(&mut *self.recv.lock().unwrap());
+            let rec = view_record(ctx, id, f, &key, names, &recv);
+            self.views.lock().unwrap().push(rec);
+        }
         self.log.lock().unwrap().push((id, f.to_string(), key));
         self.index.get(&(id, f.to_string())).cloned().unwrap_or(RVal::Null)
     }
 }
 
-fn world<'a>(ctx: &'a Context<'_>) -> &'a Arc<World> {
+pub fn world<'a>(ctx: &'a Context<'_>) -> &'a Arc<World> {
     ctx.data_unchecked::<Arc<World>>()
+}
+
+// ------------------------------------------------------------------ (C22) views seen by a resolver
+
+/// `(f NAME ALIAS (args (K V)…) [(children…)])` — one `SelectionField`, children to `depth`
+pub fn selection_field_sexp(f: &async_graphql::SelectionField<'_>, depth: usize) -> Sexp {
+    let args = match f.arguments() {
+        Ok(a) => node("args", a.iter().map(|(k, v)| list(vec![st(k.to_string()), const_to_gv(v).to_sexp()])).collect()),
+        Err(_) => node("args", vec![atom("err")]),
+    };
+    let mut v = vec![st(f.name()), f.alias().map(st).unwrap_or(atom("none")), args];
+    if depth > 0 {
+        v.push(list(f.selection_set().map(|c| selection_field_sexp(&c, depth - 1)).collect()));
+    }
+    node("f", v)
+}
+
+/// `(inv PARENT FIELD KEY (LINE COL) (path…) (recv (K V)…) (sel ENTRY…) (la (n NAME EXISTS (ENTRY…) ((m NAME EXISTS (ENTRY…))…))…))`
+fn view_record(ctx: &Context<'_>, id: u32, f: &str, key: &str, names: &[String], recv: &[(String, GV)]) -> Sexp {
+    let b = |x: bool| atom(if x { "true" } else { "false" });
+    let mut path = vec![];
+    let mut cur = ctx.path_node.as_ref();
+    while let Some(n) = cur {
+        path.push(match n.segment {
+            async_graphql::QueryPathSegment::Index(i) => num(i),
+            async_graphql::QueryPathSegment::Name(s) => st(s),
+        });
+        cur = n.parent;
+    }
+    path.reverse();
+    let sel = node("sel", ctx.field().selection_set().map(|c| selection_field_sexp(&c, 1)).collect());
+    let la = ctx.look_ahead();
+    let la_sexp = node(
+        "la",
+        names
+            .iter()
+            .map(|n| {
+                let l1 = la.field(n);
+                let subs = if l1.exists() {
+                    names
+                        .iter()
+                        .filter_map(|m| {
+                            let l2 = l1.field(m);
+                            let fs = l2.selection_fields();
+                            if l2.exists() || !fs.is_empty() {
+                                Some(node("m", vec![st(m.clone()), b(l2.exists()), list(fs.iter().map(|x| selection_field_sexp(x, 0)).collect())]))
+                            } else {
+                                None
+                            }
+                        })
+                        .collect()
+                } else {
+                    vec![]
+                };
+                node(
+                    "n",
+                    vec![st(n.clone()), b(l1.exists()), list(l1.selection_fields().iter().map(|x| selection_field_sexp(x, 0)).collect()), list(subs)],
+                )
+            })
+            .collect(),
+    );
+    node(
+        "inv",
+        vec![
+            num(id),
+            st(f),
+            st(key),
+            list(vec![num(ctx.item.pos.line), num(ctx.item.pos.column)]),
+            list(path),
+            node("recv", recv.iter().map(|(k, v)| list(vec![st(k.clone()), v.to_sexp()])).collect()),
+            sel,
+            la_sexp,
+        ],
+    )
 }
 
 // ------------------------------------------------------------------ conversion RVal -> Rust types
@@ -206,7 +295,7 @@ fn world<'a>(ctx: &'a Context<'_>) -> &'a Arc<World> {
 pub trait FromRVal: Sized {
     fn conv(rv: &RVal) -> Result<Self>;
 }
-fn bad<T>(what: &str, rv: &RVal) -> Result<T> {
+pub fn bad<T>(what: &str, rv: &RVal) -> Result<T> {
     Err(format!("world value does not fit {what}: {rv:?}").into())
 }
 impl FromRVal for i64 {
@@ -322,13 +411,126 @@ impl FromRVal for V {
     }
 }
 
-fn fetch<T: FromRVal>(ctx: &Context<'_>, id: u32, _rust_name: &str) -> Result<T> {
+#[allow(dead_code)]
+pub fn fetch<T: FromRVal>(ctx: &Context<'_>, id: u32, _rust_name: &str) -> Result<T> {
     // the world is keyed by the GraphQL (camelCase) field name
     let f = ctx.field().name().to_string();
     match world(ctx).get(ctx, id, &f) {
         RVal::Fail(m) => Err(m.into()),
         rv => T::conv(&rv),
     }
+}
+
+// ------------------------------------------------------------------ gates and traces (C04 / C05)
+// Additive: without a schedule (`World::sched == None`) every resolver is immediately ready and
+// nothing is traced, exactly as before.
+
+#[derive(Clone, Debug, PartialEq, Eq, Hash, PartialOrd, Ord)]
+pub enum Seg {
+    Key(String),
+    Idx(usize),
+}
+pub fn path_sexp(p: &[Seg]) -> Sexp {
+    list(p.iter().map(|s| match s {
+        Seg::Key(k) => st(k.clone()),
+        Seg::Idx(i) => num(i),
+    }).collect())
+}
+pub fn path_from_sexp(s: &Sexp) -> Option<Vec<Seg>> {
+    s.as_list()?.iter().map(|x| match x {
+        Sexp::Str(k) => Some(Seg::Key(k.clone())),
+        _ => x.as_usize().map(Seg::Idx),
+    }).collect()
+}
+
+/// identity of a gate: response path of the PARENT position, response key, source position of
+/// the field occurrence
+pub type GateKey = (Vec<Seg>, String, (usize, usize));
+
+#[derive(Clone, Debug)]
+pub struct TraceEv {
+    pub end: bool,
+    pub at: GateKey,
+}
+impl TraceEv {
+    pub fn to_sexp(&self) -> Sexp {
+        list(vec![atom(if self.end { "e" } else { "s" }), path_sexp(&self.at.0), st(self.at.1.clone()), num(self.at.2.0), num(self.at.2.1)])
+    }
+}
+
+/// gate `k` per resolver occurrence (default 0 = immediately ready)
+#[derive(Clone, Debug, Default)]
+pub struct Sched {
+    pub gates: HashMap<GateKey, u32>,
+}
+impl Sched {
+    /// `(sched ((PATH…) KEY LINE COL K) …)`
+    pub fn from_sexp(s: &Sexp) -> Option<Sched> {
+        let mut gates = HashMap::new();
+        for e in s.args() {
+            let l = e.as_list()?;
+            gates.insert((path_from_sexp(&l[0])?, l[1].as_str()?.to_string(), (l[2].as_usize()?, l[3].as_usize()?)), l[4].as_usize()? as u32);
+        }
+        Some(Sched { gates })
+    }
+}
+
+/// Pending (waking itself) `k` times, then Ready
+pub struct Gate(pub u32);
+impl std::future::Future for Gate {
+    type Output = ();
+    fn poll(mut self: std::pin::Pin<&mut Self>, cx: &mut std::task::Context<'_>) -> std::task::Poll<()> {
+        if self.0 == 0 {
+            std::task::Poll::Ready(())
+        } else {
+            self.0 -= 1;
+            cx.waker().wake_by_ref();
+            std::task::Poll::Pending
+        }
+    }
+}
+
+fn gate_key(ctx: &Context<'_>) -> GateKey {
+    let mut segs = vec![];
+    let mut n = ctx.path_node.as_ref();
+    while let Some(node) = n {
+        segs.push(match node.segment {
+            async_graphql::QueryPathSegment::Name(s) => Seg::Key(s.to_string()),
+            async_graphql::QueryPathSegment::Index(i) => Seg::Idx(i),
+        });
+        n = node.parent;
+    }
+    segs.reverse();
+    segs.pop(); // the field's own response key
+    let key = ctx.field().alias().unwrap_or(ctx.field().name()).to_string();
+    (segs, key, (ctx.item.pos.line, ctx.item.pos.column))
+}
+
+/// the resolver body shared by all fields: invocation log, then (with a schedule) start event,
+/// gate, end event
+async fn gated_get(ctx: &Context<'_>, id: u32) -> RVal {
+    let w = world(ctx);
+    let f = ctx.field().name().to_string();
+    let rv = w.get(ctx, id, &f);
+    if let Some(s) = &w.sched {
+        let at = gate_key(ctx);
+        let k = s.gates.get(&at).copied().unwrap_or(0);
+        w.trace.lock().unwrap().push(TraceEv { end: false, at: at.clone() });
+        Gate(k).await;
+        w.trace.lock().unwrap().push(TraceEv { end: true, at });
+    }
+    rv
+}
+
+async fn fetch_g<T: FromRVal>(ctx: &Context<'_>, id: u32) -> Result<T> {
+    match gated_get(ctx, id).await {
+        RVal::Fail(m) => Err(m.into()),
+        rv => T::conv(&rv),
+    }
+}
+
+pub fn trace_sexp(w: &World) -> Sexp {
+    node("trace", w.trace.lock().unwrap().iter().map(|e| e.to_sexp()).collect())
 }
 
 // ------------------------------------------------------------------ the schema
@@ -387,7 +589,7 @@ macro_rules! fields {
     ($t:ident { $( $f:ident : $ty:ty ),* $(,)? }) => {
         #[Object]
         impl $t {
-            $( async fn $f(&self, ctx: &Context<'_>) -> Result<$ty> { fetch::<$ty>(ctx, self.id, stringify!($f)) } )*
+            $( async fn $f(&self, ctx: &Context<'_>) -> Result<$ty> { fetch_g::<$ty>(ctx, self.id).await } )*
         }
     };
 }
@@ -440,53 +642,53 @@ pub struct Query;
 #[Object]
 impl Query {
     async fn a(&self, ctx: &Context<'_>) -> Result<Option<A>> {
-        fetch(ctx, 0, "a")
+        fetch_g(ctx, 0).await
     }
     async fn a_req(&self, ctx: &Context<'_>) -> Result<A> {
-        fetch(ctx, 0, "aReq")
+        fetch_g(ctx, 0).await
     }
     async fn b(&self, ctx: &Context<'_>) -> Result<Option<B>> {
-        fetch(ctx, 0, "b")
+        fetch_g(ctx, 0).await
     }
     async fn c(&self, ctx: &Context<'_>) -> Result<Option<C>> {
-        fetch(ctx, 0, "c")
+        fetch_g(ctx, 0).await
     }
     async fn i(&self, ctx: &Context<'_>) -> Result<Option<I>> {
-        fetch(ctx, 0, "i")
+        fetch_g(ctx, 0).await
     }
     async fn is(&self, ctx: &Context<'_>) -> Result<Option<Vec<Option<I>>>> {
-        fetch(ctx, 0, "is")
+        fetch_g(ctx, 0).await
     }
     async fn jay(&self, ctx: &Context<'_>) -> Result<Option<J>> {
-        fetch(ctx, 0, "jay")
+        fetch_g(ctx, 0).await
     }
     async fn un(&self, ctx: &Context<'_>) -> Result<Option<U>> {
-        fetch(ctx, 0, "un")
+        fetch_g(ctx, 0).await
     }
     async fn uns(&self, ctx: &Context<'_>) -> Result<Option<Vec<Option<U>>>> {
-        fetch(ctx, 0, "uns")
+        fetch_g(ctx, 0).await
     }
     async fn vn(&self, ctx: &Context<'_>) -> Result<Option<V>> {
-        fetch(ctx, 0, "vn")
+        fetch_g(ctx, 0).await
     }
     async fn vns_req(&self, ctx: &Context<'_>) -> Result<Vec<V>> {
-        fetch(ctx, 0, "vnsReq")
+        fetch_g(ctx, 0).await
     }
     async fn tag(&self, ctx: &Context<'_>) -> Result<Option<E>> {
-        fetch(ctx, 0, "tag")
+        fetch_g(ctx, 0).await
     }
     async fn num(&self, ctx: &Context<'_>) -> Result<Option<i64>> {
-        fetch(ctx, 0, "num")
+        fetch_g(ctx, 0).await
     }
     async fn flt(&self, ctx: &Context<'_>) -> Result<Option<f64>> {
-        fetch(ctx, 0, "flt")
+        fetch_g(ctx, 0).await
     }
     async fn strs(&self, ctx: &Context<'_>) -> Result<Option<Vec<String>>> {
-        fetch(ctx, 0, "strs")
+        fetch_g(ctx, 0).await
     }
     /// echoes its (defaulted) argument
     async fn echo(&self, ctx: &Context<'_>, #[graphql(default = 0)] x: i64) -> i64 {
-        world(ctx).get(ctx, 0, "echo");
+        gated_get(ctx, 0).await;
         x
     }
 }
@@ -495,16 +697,16 @@ pub struct Mutation;
 #[Object]
 impl Mutation {
     async fn a(&self, ctx: &Context<'_>) -> Result<Option<A>> {
-        fetch(ctx, 0, "a")
+        fetch_g(ctx, 0).await
     }
     async fn num(&self, ctx: &Context<'_>) -> Result<Option<i64>> {
-        fetch(ctx, 0, "num")
+        fetch_g(ctx, 0).await
     }
     async fn num_req(&self, ctx: &Context<'_>) -> Result<i64> {
-        fetch(ctx, 0, "numReq")
+        fetch_g(ctx, 0).await
     }
     async fn echo(&self, ctx: &Context<'_>, #[graphql(default = 0)] x: i64) -> i64 {
-        world(ctx).get(ctx, 0, "echo");
+        gated_get(ctx, 0).await;
         x
     }
 }
@@ -588,7 +790,7 @@ pub struct SchemaD {
     pub types: Vec<TypeD>,
 }
 
-fn const_to_gv(v: &async_graphql_value::ConstValue) -> GV {
+pub fn const_to_gv(v: &async_graphql_value::ConstValue) -> GV {
     use async_graphql_value::ConstValue as CV;
     match v {
         CV::Null => GV::Null,
@@ -753,7 +955,8 @@ impl SchemaD {
 pub const POOL: [(&str, [u32; 3]); 3] = [("A", [1, 2, 3]), ("B", [4, 5, 6]), ("C", [7, 8, 9])];
 
 fn pool_ids(ty: &str) -> &'static [u32; 3] {
-    &POOL.iter().find(|p| p.0 == ty).unwrap().1
+    // a type outside the pool (only in schemas that extend the family, e.g. C22's self-returning root): identity 0
+    POOL.iter().find(|p| p.0 == ty).map(|p| &p.1).unwrap_or(&[0, 0, 0])
 }
 
 pub struct WorldGen<'a> {
@@ -1228,12 +1431,17 @@ impl<'a> DocGen<'a> {
 
 /// a document with one operation over the family, its variables, and a matching variable set
 pub fn gen_request(sd: &SchemaD, rng: &mut Rng, dist: &mut Dist, op_ty: &str, directives: bool) -> (DocN, Vec<(String, GV)>) {
+    gen_request_b(sd, rng, dist, op_ty, directives, 14, 3)
+}
+
+/// `gen_request` with an explicit selection budget and depth
+pub fn gen_request_b(sd: &SchemaD, rng: &mut Rng, dist: &mut Dist, op_ty: &str, directives: bool, budget: usize, depth: usize) -> (DocN, Vec<(String, GV)>) {
     let root = if op_ty == "mutation" { sd.mutation.clone().unwrap() } else { sd.query.clone() };
-    let mut g = DocGen { sd, rng, dist, frags: vec![], vars: vec![], max_frags: 3, directives, budget: 14 };
+    let mut g = DocGen { sd, rng, dist, frags: vec![], vars: vec![], max_frags: 3, directives, budget };
     let mut sels = vec![];
     while sels.is_empty() {
-        g.budget = 14;
-        sels = g.selection_set(&root, 3);
+        g.budget = budget;
+        sels = g.selection_set(&root, depth);
     }
     let frags_now = g.frags.clone();
     let mut used: Vec<String> = vec![];
